@@ -79,10 +79,11 @@ def discover_inputs(sim, fn, gargs, self_name="self", extra_args=None, self_valu
 
 
 def field_order(sim, self_ty):
-    """Names of Reference-typed input fields of a stream struct in declaration order; arrays expand by index."""
-    fs = sim.adt_fields(self_ty)
+    """Labels of the Reference-typed inputs of a stream struct in declaration order (found through private sub-structs, newtypes
+    and tuples: layout.leaves); arrays expand by index."""
+    import layout
     out = []
-    for name, ty in fs:
+    for name, ty, _path in layout.leaves(sim, self_ty, stop=("Reference", "SettableData")):
         if is_adt(ty, "Reference"):
             out.append("*self." + name)
         elif ty.get("k") == "array" and is_adt(ty["ty"], "Reference"):
